@@ -134,6 +134,7 @@ func (rs *ResourceSubscription) Unsubscribe(sub Subscriber) {
 }
 
 func (rs *ResourceSubscription) handleEvent(r *ResourceEvent) {
+	verifNote("rsEvent", "name", rs.e.ResourceName, "query", rs.query, "ev", r.Event, "state", int(rs.state), "resetting", rs.resetting, "subs", len(rs.subs))
 	// Discard if event happened before resource was loaded,
 	// unless it is a reaccess. Then we let the event be passed further.
 	if rs.state <= stateRequested && r.Event != "reaccess" {
@@ -163,6 +164,7 @@ func (rs *ResourceSubscription) handleEvent(r *ResourceEvent) {
 		return
 	}
 
+	verifNote("rsFwd", "name", rs.e.ResourceName, "query", rs.query, "ev", r.Event, "version", int(rs.version), "subs", len(rs.subs))
 	rs.e.mu.Unlock()
 	for sub := range rs.subs {
 		sub.Event(r)
@@ -498,6 +500,7 @@ func (rs *ResourceSubscription) handleResetAccess(t *Throttle) {
 }
 
 func (rs *ResourceSubscription) processResetGetResponse(payload []byte, err error) {
+	verifNote("rsResetAns", "name", rs.e.ResourceName, "query", rs.query, "state", int(rs.state), "failed", err != nil)
 	var result *codec.GetResult
 	// Either we have an error making the request
 	// or an error in the service's response
